@@ -5,6 +5,7 @@ from ..pe import Clos, Evaluator, SymObj, Tag, explore, vkey, ListV, vkey
 from ..src import Inconclusive, calls, method_calls, render, walk, walk_with_parents
 from ..tables import ATTR, EXPAND, IMPL_FILES, VALIDATE, direction, kinds
 
+TECHNIQUE = "static analysis: partial evaluation of the lookup chain over (kind, fallible) + small-scope abstract evaluation of every lookup accessor over vectors of abstract instructions (no execution of o2o)"
 LEVEL = "other"
 EXPLANATION = (
     "The lookup order is a fixed `or_else` chain guarded by constants of the conversion; partially evaluating it for each of the 12 "
@@ -12,7 +13,8 @@ EXPLANATION = (
     "the property states (ghost, exact kind, infallible of that kind, `into` for `into_existing`, its infallible form). The same "
     "extraction on validation's copy (applicable_field_attr, with the arguments actually passed at its call sites) and on the "
     "nested-parent copy (get_for_kind) must agree. R3: every accessor taking a counterpart type is `find(R∧dedicated).or_else(find(R∧default))` "
-    "with the same residual filter R on both sides (truth tables of both predicates). R4: expand.rs reads member instruction vectors only through these accessors.")
+    "with the same residual filter R on both sides (truth tables of both predicates). R4: expand.rs reads member instruction vectors only through these accessors. "
+    " R3 is decided by evaluating each accessor (std iterator / loop semantics) on every vector of at most three abstract instructions {default, dedicated to the queried type, dedicated elsewhere}, each with its own symbolic residual record; the report is a counterexample vector. R5/R6 import the name-table contract (C12) and the call-site argument rule (C06.R2).")
 NOT_DECIDED = ["token equality of the impls an unrelated instruction must not touch (follows from R4 only because every read is per conversion)"]
 
 
@@ -447,7 +449,43 @@ def run(chk):
                     chk.bad("R6", "call:" + i.key, i.file, i.line, i.what, i.expected, i.found)
     chk.guard("R6", r6)
 
+    def r7():
+        # a context derived for a nested rendering (the per-variant struct) must carry the SAME conversion: kind and fallibility are
+        # inherited (`..*ctx`) or copied from the enclosing context, never fixed
+        from ..tables import EXPAND
+        chk.rule("R7", "every ImplContext built outside data_type_impl inherits kind and fallibility from the context it is derived from", floor=1)
+        n = 0
+        for fi in chk.repo.fns(EXPAND):
+            if fi.name == "data_type_impl":
+                continue
+            k = 0
+            for node in walk(fi.body):
+                if node["k"] != "Struct" or not (node.get("path") or "").replace(" ", "").endswith("ImplContext"):
+                    continue
+                n += 1
+                rest = render(node["rest"]).replace(" ", "") if node.get("rest") else None
+                inherits = rest is not None and re.fullmatch(r"\*?(\w+_)?ctx", rest) is not None
+                for fld in ("kind", "fallible"):
+                    ex = [f_["expr"] for f_ in node["fields"] if f_["member"] == fld]
+                    key = f"{fi.qual}:ImplContext#{k}.{fld}"
+                    if not ex:
+                        chk.shape("R7", key, inherits, rest is None, EXPAND, node["line"], what="derived context does not take this field from the enclosing context", found=rest)
+                        continue
+                    t = render(ex[0]).replace(" ", "")
+                    good = re.fullmatch(r"\*?&?(\w+_)?ctx\." + fld + r"(\.clone\(\))?", t) is not None
+                    bad = re.fullmatch(r"true|false|Kind::\w+", t) is not None
+                    chk.shape("R7", key, good, bad, EXPAND, node["line"], what="derived context fixes the conversion's " + fld + " instead of inheriting it: member instructions inside are then looked up for another conversion", expected=f"ctx.{fld} / ..*ctx", found=t)
+                k += 1
+        if n == 0:
+            chk.ok("R7", "no-derived-contexts", EXPAND, 1, nontrivial=False)
+    chk.guard("R7", r7)
 
+
+
+
+def _recorded():
+    from ..core import load_known
+    return {(e["property"], e["key"]) for e in load_known() if e.get("status") == "known"}
 
 
 def import_lookup_contracts(chk, rule, accessors, with_chain=True, desc=None):
@@ -462,11 +500,13 @@ def import_lookup_contracts(chk, rule, accessors, with_chain=True, desc=None):
     for r_, why in sub.inconclusive:
         chk.inconc(rule, why)
     for i in sub.instances:
-        take = (i.rule == "R3" and any(i.key.endswith("::" + a) for a in accessors)) or (with_chain and i.rule == "R1")
+        take = (i.rule == "R3" and any(i.key.endswith("::" + a) for a in accessors)) or (with_chain and i.rule in ("R1", "R2"))
         if not take:
             continue
         if i.ok:
             chk.ok(rule, "lookup:" + i.key, i.file, i.line)
+        elif ("C05", i.key) in _recorded():
+            continue  # a defect already recorded (and printed) under C05
         else:
             chk.bad(rule, "lookup:" + i.key, i.file, i.line, i.what, i.expected, i.found)
 
